@@ -21,3 +21,6 @@ open Rpylib.Triplet
 #print axioms hem_prefix_not_martingale
 #print axioms ctmc_bookkeeping
 #print axioms ctmc_route_martingale
+#print axioms exponent_walk_invariant
+#print axioms exponent_current_drift_native_jump_shifts
+#print axioms exponent_current_drift_native_jump_wrong
